@@ -207,3 +207,13 @@ def parse_fields(reply: str) -> Dict[str, str]:
             d.setdefault("_", "")
             d["_"] += tok + " "
     return d
+
+
+def leanchecker(modules: List[str], timeout: int = 3000) -> Tuple[bool, str]:
+    """Independent re-check of the compiled .olean files of `modules` (and their dependencies) with
+    the toolchain's `leanchecker` (thorough tier)."""
+    if not modules:
+        return True, ""
+    p = subprocess.run(["lake", "env", "leanchecker", *modules], cwd=LEAN_DIR, stdout=subprocess.PIPE,
+                       stderr=subprocess.STDOUT, text=True, timeout=timeout)
+    return p.returncode == 0, p.stdout[-2000:]
